@@ -19,8 +19,8 @@ from .common import Ctx, fkey
 
 def run(ctx: Ctx, chk) -> None:
     chk.assume("A1", "A2")
-    atom1(ctx, chk)
-    iter1(ctx, chk)
+    chk.run_rule(atom1, ctx)
+    chk.run_rule(iter1, ctx)
 
 
 def _def_nodes(g: CFG, names: set[str]):
@@ -83,8 +83,18 @@ def atom1(ctx: Ctx, chk) -> None:
                 n_sites += 1
                 chk.instance(rule)
                 st = sb._stmt(ctx, f, node)
-                rnodes = g.nodes_of(st)
+                all_copies = g.nodes_of(st)
                 k = fkey(f, node)
+                verdicts = []
+                for rn in (all_copies if key is not None else [None]):
+                    verdicts.append(_removal_verdict(ctx, f, g, node, key, [rn] if rn is not None else all_copies, attr))
+                bad = [v for v in verdicts if v[0] is False]
+                if bad:
+                    chk.refute(rule, k, bad[0][1], ctx.loc(f, node))
+                else:
+                    chk.ok(rule, k, verdicts[0][1] if verdicts else "unreachable", ctx.loc(f, node))
+                continue
+                rnodes = all_copies
                 if key is None:
                     # clear / rebinding: wrong whenever an await can precede it in this function
                     aw = [x for x in g.nodes if _await_node(x)]
@@ -175,7 +185,64 @@ def atom1(ctx: Ctx, chk) -> None:
                     chk.ok(rule, k, "check and store form one atomic section (no suspension point in between)", ctx.loc(f, node))
                 else:
                     chk.refute(rule, k, f"the store is decided by `{bad[0].text()[:60]}` but `{bad[1].text()[:60]}` suspends between the check and the store", ctx.loc(f, node))
-    chk.floor(rule, "mutation sites of the message buffers", n_sites, 4)
+    chk.floor(rule, "mutation sites of the message buffers", n_sites, 2)
+
+
+def _removal_verdict(ctx: Ctx, f, g: CFG, node, key, rnodes, attr: str):
+    """(ok, text) for one CFG copy (or all copies, for clears) of a removal site."""
+    if key is None:
+        aw = [x for x in g.nodes if _await_node(x)]
+        if any(g.reach_avoiding([a], lambda x: x in rnodes, lambda x: False) for a in aw):
+            return False, f"`{norm(node)[:70]}` empties {attr} after an await: entries stored by a concurrent send in the meantime are dropped unseen"
+        return True, "no suspension point precedes the clearing"
+    key_txt = norm(key)
+    names = {x.id for x in ast.walk(key) if isinstance(x, ast.Name)}
+    defs = _def_nodes(g, names)
+    stale = None
+    for d in defs:
+        if g.reach_avoiding([d], lambda x: x in rnodes, lambda x: False) is None:
+            continue
+        for a in g.nodes:
+            if not _await_node(a) or a in rnodes:
+                continue
+            p1 = g.reach_avoiding([d], lambda x, a=a: x is a, lambda x: x in rnodes)
+            p2 = g.reach_avoiding([a], lambda x: x in rnodes, lambda x, d=d: x is d)
+            if (p1 is not None or a is d) and p2 is not None:
+                stale = (d, a)
+                break
+        if stale:
+            break
+    if stale is None:
+        return True, "no suspension point between obtaining the key and the removal"
+    d, a = stale
+    for t in g.nodes:
+        if t.kind != "test" or not all(g.dominates(t, r) for r in rnodes):
+            continue
+        v = revalidation(t.ast, attr, key_txt)
+        if v is None:
+            continue
+        false_starts = [s for s, lab in t.succ if lab == "f"]
+        if g.reach_avoiding(false_starts, lambda x: x in rnodes, lambda x, t=t: x is t, from_succ=False) is not None:
+            continue
+        true_starts = [s for s, lab in t.succ if lab == "t"]
+        aw_between = False
+        for s in true_starts:
+            for x in g.nodes:
+                if _await_node(x) and x not in rnodes:
+                    p1 = g.reach_avoiding([s], lambda y, x=x: y is x, lambda y: y in rnodes, from_succ=False)
+                    p2 = g.reach_avoiding([x], lambda y: y in rnodes, lambda y, t=t: y is t)
+                    if p1 is not None and p2 is not None:
+                        aw_between = True
+        if aw_between or _await_node(t):
+            continue
+        vdefs = _def_nodes(g, {v})
+        if not any(dn is d for dn in vdefs):
+            continue
+        return True, "re-validated after the await: the entry at the key must still be the one bound with it (identity) before it is removed"
+    return False, (
+        f"`{norm(node)[:70]}` removes by a key obtained at line {d.line} but `{a.text()[:60]}` (line {a.line}) suspends in between and nothing re-validates the entry afterwards: "
+        "a value stored under the same key by a concurrent send during the write is removed without ever being written (lost update)"
+    )
 
 
 def iter1(ctx: Ctx, chk) -> None:
